@@ -1,9 +1,13 @@
 (* C13 - line-oriented formats survive truncation and require well-formed lines.
-   PARTIAL: the converse direction is proved (NDJSON in full; CSV/TSV on the quote-free fragment of
-   encoding/csv, which is a hand model validated by correspondence); dropLastLine is characterised; the
-   forward direction (every cut after the second complete line keeps the type) is decided on the
-   implementation at every limit from the end of line 2 to len+2, for LF and CRLF files. *)
-From Verif Require Import Base.Bytes Model.Json Model.Lines Spec.JsonGrammar Proofs.LinesP.
+   Proved on the model, both directions.  Forward: a header made of at least two complete lines followed by an
+   incomplete last line - anything without a newline - is recognised exactly as if the incomplete line were not
+   there (C13_ndjson_forward, C13_csv_forward), and every cut of a file of lines at or after the end of its second
+   line has that shape (C13_ndjson_any_cut, C13_csv_any_cut: every limit from the end of line 2 to the end of the
+   file; LF and CRLF).  Converse: NDJSON only if >= 2 lines, every complete line blank or a complete JSON value,
+   one an object or array; CSV/TSV only if all complete non-comment lines have the same number >= 2 of fields.
+   CSV/TSV are on the quote-free fragment of encoding/csv (a hand model; quoted fields are an oracle); the tie to
+   Go is the c13 correspondence channel. *)
+From Verif Require Import Base.Bytes Model.Json Model.Lines Spec.JsonGrammar Spec.JsonGrammar8259 Proofs.LinesP Proofs.LinesFwd.
 
 Theorem C13_drop_last_line_whole :
   forall raw limit, (limit = 0 \/ N.of_nat (length raw) < limit)%N -> (N.of_nat (length raw) < 4294967296)%N ->
@@ -35,6 +39,75 @@ Theorem C13_csv_only_if :
     exists n rest, csv_records sep (drop_last_line inp limit) = n :: rest /\ 2 <= n /\ rest <> [] /\ Forall (eq n) rest.
 Proof. exact csv_only_if. Qed.
 Print Assumptions C13_csv_only_if.
+
+(* ---- forward direction ---- *)
+(* header = complete lines ++ incomplete line: the lines visited are the complete ones *)
+Theorem C13_incomplete_line_ignored :
+  forall ls p limit, ls <> [] -> Forall no_nl ls -> Forall (fun l => l <> []) ls -> no_nl p ->
+    limit <> 0%N -> (limit <= N.of_nat (length (join_lines ls ++ p)))%N -> (N.of_nat (length (join_lines ls ++ p)) < 4294967296)%N ->
+    scan_lines (drop_last_line (join_lines ls ++ p) limit) = map drop_cr ls.
+Proof. exact lines_visited. Qed.
+Print Assumptions C13_incomplete_line_ignored.
+
+Theorem C13_ndjson_forward :
+  forall maxrec tk ls p limit,
+    2 <= length ls -> Forall no_nl ls -> Forall (fun l => exists v, line_val maxrec l v) ls ->
+    Exists (fun l => exists v, line_val maxrec l v /\ is_container v) ls -> no_nl p ->
+    limit <> 0%N -> (limit <= N.of_nat (length (join_lines ls ++ p)))%N -> (N.of_nat (length (join_lines ls ++ p)) < 4294967296)%N ->
+    ndjson maxrec tk true (join_lines ls ++ p) limit = true.
+Proof. exact ndjson_forward_trunc. Qed.
+Print Assumptions C13_ndjson_forward.
+
+Theorem C13_ndjson_any_cut :
+  forall maxrec tk ls limit,
+    2 <= length ls -> Forall no_nl ls -> Forall (fun l => exists v, line_val maxrec l v) ls ->
+    (exists l0 rest v, ls = l0 :: rest /\ line_val maxrec l0 v /\ is_container v) ->
+    (N.of_nat (length (join_lines (firstn 2 ls))) <= limit)%N -> (limit <= N.of_nat (length (join_lines ls)))%N ->
+    (N.of_nat (length (join_lines ls)) < 4294967296)%N ->
+    ndjson maxrec tk true (hdr limit (join_lines ls)) limit = true.
+Proof. exact ndjson_any_cut. Qed.
+Print Assumptions C13_ndjson_any_cut.
+
+Theorem C13_ndjson_whole :
+  forall maxrec tk ls limit,
+    2 <= length ls -> Forall no_nl ls -> Forall (fun l => exists v, line_val maxrec l v) ls ->
+    Exists (fun l => exists v, line_val maxrec l v /\ is_container v) ls ->
+    (limit = 0 \/ N.of_nat (length (join_lines ls)) < limit)%N -> (N.of_nat (length (join_lines ls)) < 4294967296)%N ->
+    ndjson maxrec tk true (join_lines ls) limit = true.
+Proof. exact ndjson_forward_whole. Qed.
+Print Assumptions C13_ndjson_whole.
+
+Theorem C13_csv_forward :
+  forall sep n rows p limit,
+    2 <= length rows -> 2 <= n -> Forall (row_ok sep n) rows -> Forall (fun r => r <> []) rows ->
+    Forall (fun r => existsb (N.eqb 34) r = false) rows -> existsb (N.eqb 34) p = false -> no_nl p ->
+    limit <> 0%N -> (limit <= N.of_nat (length (join_lines rows ++ p)))%N -> (N.of_nat (length (join_lines rows ++ p)) < 4294967296)%N ->
+    sv_model sep (join_lines rows ++ p) limit = Some true.
+Proof. exact csv_forward_trunc. Qed.
+Print Assumptions C13_csv_forward.
+
+Theorem C13_csv_any_cut :
+  forall sep n rows limit,
+    2 <= length rows -> 2 <= n -> Forall (row_ok sep n) rows -> Forall (fun r => r <> []) rows ->
+    Forall (fun r => existsb (N.eqb 34) r = false) rows ->
+    (N.of_nat (length (join_lines (firstn 2 rows))) <= limit)%N -> (limit <= N.of_nat (length (join_lines rows)))%N ->
+    (N.of_nat (length (join_lines rows)) < 4294967296)%N ->
+    sv_model sep (hdr limit (join_lines rows)) limit = Some true.
+Proof. exact csv_any_cut. Qed.
+Print Assumptions C13_csv_any_cut.
+
+Theorem C13_csv_whole :
+  forall sep n rows limit,
+    2 <= length rows -> 2 <= n -> Forall (row_ok sep n) rows -> Forall (fun r => existsb (N.eqb 34) r = false) rows ->
+    (limit = 0 \/ N.of_nat (length (join_lines rows)) < limit)%N -> (N.of_nat (length (join_lines rows)) < 4294967296)%N ->
+    sv_model sep (join_lines rows) limit = Some true.
+Proof. exact csv_forward_whole. Qed.
+Print Assumptions C13_csv_whole.
+
+(* non-vacuity *)
+Example C13_forward_example :
+  ndjson 4096 (2,4,8,16,32,64,128)%N true (join_lines [b "{""a"":1}"; b "[2]" ++ [13%N]; b "3"] ++ b "{""trunc") 20 = true.
+Proof. vm_compute. reflexivity. Qed.
 
 Example C13_cut_lines_rejected :
   ndjson 4096 (2,4,8,16,32,64,128)%N true (b "{""a"":" ++ [10%N] ++ b "{""b"":" ++ [10%N]) 0 = false.
